@@ -477,3 +477,85 @@ func VerifC10_two_field_groups() {
 	}
 	verifReach("C10/groups2/end")
 }
+
+// fraction (plain and cumulative) and histogram with explicit bounds, three records with symbolic
+// small ints: every record's fraction is its value (cumulative: the running total up to and
+// including it) over the total; every value in [lo, hi] falls in exactly one bin (hi itself in the
+// last one), values outside in none, bins tile [lo, hi).
+func VerifC10_fraction_and_histogram() {
+	var xs []int64
+	var recs []*mlrval.Mlrmap
+	for i := 0; i < 3; i++ {
+		x := verifInt64("x")
+		verifAssume(x >= -1 && x <= 5)
+		x = verifConcretize(x, 16) // (every value of the range, enumerated by the solver: the quotients are floats)
+		xs = append(xs, x)
+		r := mlrval.NewMlrmapAsRecord()
+		r.PutReference("x", mlrval.FromInt(x))
+		recs = append(recs, r)
+	}
+	run := func(tr RecordTransformer) []*mlrval.Mlrmap {
+		ctx := types.NewContext()
+		idc, odc := make(chan bool, 1), make(chan bool, 8)
+		out := []*types.RecordAndContext{}
+		for _, r := range recs {
+			verifAssert(tr.Transform(types.NewRecordAndContext(r, ctx), &out, idc, odc) == nil, "C10/fraction-histogram/transform-ok")
+		}
+		tr.Transform(types.NewEndOfStreamMarker(ctx), &out, idc, odc)
+		var res []*mlrval.Mlrmap
+		for _, o := range out {
+			if o.Record != nil {
+				res = append(res, o.Record)
+			}
+		}
+		return res
+	}
+	switch verifChoice("verb", 3) {
+	case 0, 1:
+		cumulative := verifChoice("cumulative", 2) == 1
+		sum := xs[0] + xs[1] + xs[2]
+		verifAssume(xs[0] >= 0 && xs[1] >= 0 && xs[2] >= 0 && sum > 0)
+		argv := []string{"fraction", "-f", "x"}
+		name := "x_fraction"
+		if cumulative {
+			argv, name = append(argv, "-c"), "x_cumulative_fraction"
+		}
+		out := run(verifVerb(argv...))
+		verifAssert(len(out) == 3, "C10/fraction/one-record-out-per-record-in")
+		cum := int64(0)
+		for i := 0; i < len(out) && i < 3; i++ {
+			cum += xs[i]
+			num := xs[i]
+			if cumulative {
+				num = cum
+			}
+			v := out[i].Get(name)
+			verifAssert(v != nil, "C10/fraction/field-present")
+			if v != nil {
+				f, ok := v.GetNumericToFloatValue()
+				verifAssert(ok && f == float64(num)/float64(sum), "C10/fraction/value-over-total")
+			}
+		}
+	case 2:
+		out := run(verifVerb("histogram", "-f", "x", "--lo", "0", "--hi", "4", "--nbins", "2"))
+		verifAssert(len(out) == 2, "C10/histogram/one-record-per-bin")
+		want := []int64{0, 0}
+		for _, x := range xs {
+			if x >= 0 && x < 2 {
+				want[0]++
+			} else if x >= 2 && x <= 4 {
+				want[1]++
+			}
+		}
+		for b := 0; b < len(out) && b < 2; b++ {
+			c10IntIs(out[b], "x_count", want[b], "C10/histogram/bin-count-with-hi-in-the-last-bin")
+			lo := out[b].Get("bin_lo")
+			verifAssert(lo != nil, "C10/histogram/bin-bounds-present")
+			if lo != nil {
+				f, ok := lo.GetNumericToFloatValue()
+				verifAssert(ok && f == float64(2*b), "C10/histogram/bins-tile-the-range")
+			}
+		}
+	}
+	verifReach("C10/fraction-histogram/end")
+}
